@@ -107,6 +107,7 @@ VMC_HARNESS(canc_basic, "C19,C01,C02") {
   auto snd = create_basic_sender<int>([&](auto event, auto& op) {
     if constexpr (event.is_start) {
       fire = safe_callback<>(op, [&fallbacks]() noexcept { ++fallbacks; });
+      vmc::publish();   // (the hand-over of `fire` to the callback thread is the harness's business)
       have_fire = true;
     } else if constexpr (event.is_callback) {
       ++callbacks;
